@@ -102,6 +102,12 @@ Theorem C12_mask_grids_translate :
   over_sampled_grid (translate d M) subs = shift d (over_sampled_grid M subs)).
 Proof. exact (conj x_from_mask_translates (conj x_derive_grid_all_false_translates (conj x_derive_grid_sel_translates (conj x_blurring_grid_from_translates (conj x_padded_grid_from_translates x_over_sampled_grid_translates))))). Qed.
 
+(* Grid2D.subtracted_from(offset): the re-based grid and its mask (origin - offset) *)
+Theorem C12_subtracted_from_translates : forall (M : @mask2d ROps), fst (mps M) <> 0 -> snd (mps M) <> 0 -> forall d off,
+  subtracted_mask (translate d M) off = translate d (subtracted_mask M off) /\
+  subtracted_grid (translate d M) off = shift d (subtracted_grid M off).
+Proof. exact x_subtracted_from_translates. Qed.
+
 Theorem C12_mask_centre_and_extent_translate :
   (forall (M : @mask2d ROps), fst (mps M) <> 0 -> snd (mps M) <> 0 -> forall d,
   mask_centre (translate d M) = oshift d (mask_centre M)) /\
@@ -237,5 +243,6 @@ Print Assumptions C12_overlay_mesh_translates.
 Print Assumptions C12_hilbert_geometry_translates.
 Print Assumptions C12_rect_mesh_and_mapper.
 Print Assumptions C12_datasets_keep_the_frame.
+Print Assumptions C12_subtracted_from_translates.
 Print Assumptions C12_relocation_translates.
 Print Assumptions C12_dropped_origin_call_sites_refuted.
